@@ -360,6 +360,9 @@ func unmarshalDynamic(dec *msgpack.Decoder, path cty.Path) (cty.Value, error) {
 	if err != nil {
 		return cty.DynamicVal, path.NewError(err)
 	}
+	// Optional-attribute annotations are meaningful only for type constraints
+	// used in conversion, never for the type of a value.
+	ty = ty.WithoutOptionalAttributesDeep()
 
 	return unmarshal(dec, ty, path)
 }
